@@ -266,6 +266,22 @@ func (g *histGen) newTree(base []WFile, touchSrc bool) []WFile {
 	if !found {
 		files = append(files, WFile{Path: path, Blob: g.nBlob})
 	}
+	// one commit in three changes a second path as well (an unprotected one sorting before or after
+	// src/, or another protected one): the per-path loop of a commit is then walked more than once
+	if g.opts.fileRules && g.r.Chance(35) {
+		second := []string{"LICENSE", "docs/extra", "src/other.go", "tests/t0", "zz"}[g.r.Intn(5)]
+		g.nBlob++
+		found = false
+		for i := range files {
+			if files[i].Path == second {
+				files[i].Blob = g.nBlob
+				found = true
+			}
+		}
+		if !found {
+			files = append(files, WFile{Path: second, Blob: g.nBlob})
+		}
+	}
 	return files
 }
 
